@@ -351,6 +351,7 @@ def handleS (base : State) (line : String) : State × String :=
   match line.splitOn "\t" with
   | ["init", payload] => runInit payload
   | ["eval", payload] => (base, runEval base payload)
+  | ["nomodel", _] => (base, "-")   -- engines whose oracle is harness-side only (wall-clock behaviour)
   | ["hist", payload] => (base, runHist base payload)
   | ["pos", payload] => (base, runPos base payload)
   | ["routes", payload] => (base, runRoutes base payload)
